@@ -14,7 +14,7 @@ META = {
                      "verified_merge / verify / read over a Merkle DAG); TLC explores all delivery and merge orders of a bounded "
                      "model and is the oracle (trace validation) over executions of the real SignedRegister/RegisterCrdt with real "
                      "BLS keys",
-        "text": "TLC checks the clause operators (merge laws, convergence, authorised entry, closure under verify) on every state and "
+        "text": "TLC checks the clause operators (merge laws, convergence, authorised entry, closure under verify / verified merge) on every state and "
                 "step of a bounded model (3 replicas + hand-made replicas, 7-8 operations of every class, every permission setting, "
                 "entry limit scaled to 3) and emits behaviours of the model as scenarios. The driver replays them, and seeded random "
                 "histories (3-5 replicas, forged/oversized/foreign-address operations, duplicated and reordered deliveries, "
@@ -31,38 +31,28 @@ PACKAGES = ["drv_light"]
 REAL_LIMIT = 1024
 
 # ---------------------------------------------------------------------------------------------
-# Known findings: each matcher recognises ONE failing pattern on the facts the trace specification
-# attaches to a falsified clause; any other way of falsifying the same clause stays a VIOLATION.
-KNOWN = {
-    "C06-verify-rejects-full-register": {
-        "description": "add_op admits operations while the replica holds fewer than MAX_REG_NUM_ENTRIES (1024), so a replica "
-                       "can hold exactly 1024 entries, but verify() (and hence verified_merge of that replica, node-side "
-                       "validation and client register_get) rejects any replica holding >= 1024 entries with TooManyEntries",
-        "match": lambda x: x["clause"] == "C06_Closure" and x["f"]["res"] == "Err:TooManyEntries"
-                           and x["f"]["count"] == x["f"]["limit"],
-    },
-    "C06-merge-exceeds-entry-limit": {
-        "description": "merge / verified_merge never check the entry count of the result: merging replicas that are each within "
-                       "the limit yields a replica with more than 1024 entries, which every verify() then rejects with TooManyEntries",
-        "match": lambda x: x["clause"] == "C06_Closure" and x["f"]["res"] == "Err:TooManyEntries"
-                           and x["f"]["count"] > x["f"]["limit"] and x["f"]["merged"],
-    },
-    "C06-foreign-address-op-accepted": {
-        "description": "add_op / verify / verified_merge never compare the address carried by an operation with the register's "
-                       "address: an operation made (and validly signed by a permitted writer) for another register is accepted "
-                       "into the replica; RegisterCrdt::apply_op later refuses it (RegisterAddrMismatch), which makes the client's "
-                       "register_get fail for the whole register",
-        "match": lambda x: x["clause"] in ("C06_AuthorisedAdd", "C06_AuthorisedMerge", "C06_Authorised")
-                           and x["f"]["reasons"] == ["address"],
-    },
+# Known findings: the listed-known set is read from /verif/known_findings.json (status "known" only);
+# each has a matcher here that recognises ONE failing pattern on the facts the trace specification
+# attaches to a falsified clause. Any other way of falsifying the same clause -- and any recurrence
+# of a finding that is listed as fixed (C06-verify-rejects-full-register, C06-foreign-address-op-accepted)
+# -- is a VIOLATION.
+MATCHERS = {
+    # merge / verified_merge never check the entry count of the result: a replica that came to hold MORE than
+    # the limit, through an accepted merge, is refused by verify() with TooManyEntries
+    "C06-merge-exceeds-entry-limit":
+        lambda x: x["clause"] == "C06_Closure" and x["f"]["res"] == "Err:TooManyEntries"
+                  and x["f"]["count"] > x["f"]["limit"] and x["f"]["merged"],
 }
 
 
-def known_for(x):
-    for kid, k in KNOWN.items():
+def known_for(x, listed=None):
+    listed = {k["id"]: k for k in kf_for("C06")} if listed is None else listed
+    for kid, match in MATCHERS.items():
+        if kid not in listed:
+            continue
         try:
-            if k["match"](x):
-                return {"id": kid, "description": k["description"]}
+            if match(x):
+                return {"id": kid, "description": listed[kid]["description"]}
         except (KeyError, TypeError):
             pass
     return None
@@ -100,11 +90,12 @@ def finalise(sc):
     """Append the standard closing block to a TLC scenario: value and verification of every replica,
     the merge laws on the final states."""
     n = len(sc["bases"])
-    heavy = sc["nf"][0] > 0 and not sc["bases"][0]["open"]
     steps = list(sc["steps"])
     for r in range(1, n + 1):
         steps.append({"a": "Read", "r": r})
-        if not heavy:
+        # verify() of a padded replica that is not open checks ~1021 signatures (~1.6 s): left to the
+        # scenario's own Verify steps
+        if not (sc["nf"][r - 1] > 0 and not sc["bases"][r - 1]["open"]):
             steps.append({"a": "Verify", "r": r})
     padded = sc["nf"][0] > 0       # every law instance clones and projects ~1021 fillers: fewer instances
     for (a, b) in ((1, 2),) if padded else ((1, 2), (1, 3), (2, 3)):
@@ -281,17 +272,17 @@ def run(prop, tier, replay=None):
         missing = [a for a in MODEL_ACTIONS if act_cov.get(a, (0, 0))[1] == 0]
         if cv.violated or missing:
             raise ToolError("coverage run: violated=%s, actions never taken: %s" % (cv.violated, missing))
-        # the unmasked clauses must fail in the model (the known findings are design-level); their
+        # the unmasked closure clause must fail in the model (the known finding is design-level); the
         # counterexamples are replayed on the code with the other scenarios
         cex_file = os.path.join(w, "cex.txt")
         pool_file = os.path.join(w, "pool.ndjson")
-        for cfg, inv in (("MCRegister_raw_closure.cfg", "ClosureRaw"), ("MCRegister_raw_authorised.cfg", "AuthorisedRaw")):
+        for cfg, inv in (("MCRegister_raw_closure.cfg", "ClosureRaw"),):
             r = tlc("register", "MCRegister", cfg, w, env={"CEX": cex_file, "POOL": pool_file}, workers=2, coverage=False, timeout=1200)
             if r.violated != inv:
                 v.drift.append({"what": "model", "detail": "%s: expected TLC to report %s in the model, got %s" % (cfg, inv, r.violated)})
         phase("tlc_coverage_and_raw")
         cex, _ = load_tlc_scenarios(cex_file, pool_file) if os.path.exists(cex_file) else ([], 3)
-        cex = [s for s in cex if not is_heavy(s)][:6]
+        cex = [s for s in cex if not is_heavy(s)][:6] or cex[:2]
         for s in cex:
             s["src"] = "tlc-cex"
         # 2. behaviours of the model as scenarios
@@ -336,10 +327,11 @@ def run(prop, tier, replay=None):
     if malformed:
         raise ToolError("malformed trace event at line %d: %s" % (malformed[0]["line"], json.dumps(events[malformed[0]["line"] - 1])[:600]))
     reported = set()
+    listed = {k["id"]: k for k in kf_for(prop)}
     for x in rep["violations"]:
         e = events[x["line"] - 1]
         sc = run_of[e["run"]]
-        kf = known_for(x)
+        kf = known_for(x, listed)
         what = "%s false at %s (scenario %s/%s, seq %s) facts=%s" % (x["clause"], describe(e), sc["src"], sc["id"], e["seq"],
                                                                    json.dumps({k: x["f"][k] for k in x["f"] if x["f"][k] not in ("", 0, [], False)}))
         # a replay applies the same masks, unless the file is the kept demonstration of a known finding
